@@ -13,7 +13,8 @@
      * for ARBITRARY parent maps (mal = TRUE; `new_from` accepts them) the same holds
        EXCEPT that `find(x)` never leaves its first loop exactly when the walk from x enters
        a cycle of length >= 2 that x is not on (rho shape, UfRhoStart): RhoExact.
-   FIXED = TRUE replaces loop 1 by the candidate repair (Brent-style cycle detection: a
+   FIXED = TRUE (the default: the code as shipped since /repo 263fd4bfaa9; FIXED = FALSE is the
+   pre-fix loop 1, kept to document the finding) models loop 1 with Brent-style cycle detection: a
    checkpoint that moves to the current root after 1, 2, 4, ... steps; "parent == checkpoint"
    is treated like "parent == item": close the end).  With it TLC checks that NO behaviour
    breaks any rule: find terminates (FixedTerminates) from every parent map, answers equal the
@@ -23,7 +24,7 @@
 EXTENDS UnionFind, Json
 
 CONSTANTS Items, MODES, MaxOpsWf, MaxOpsMal, EMIT, FIXED
-\* FIXED = TRUE: the candidate repair of find (Brent-style cycle detection in loop 1), see below
+\* FIXED = TRUE: find as shipped (Brent-style cycle detection in loop 1); FALSE: the pre-fix loop
 \* MODES \subseteq BOOLEAN: FALSE = scripts from the empty map, TRUE = arbitrary (malformed) parent maps
 
 VARIABLES
